@@ -124,6 +124,28 @@ inline StateSet BuildStates(const Ctx& c, bool thorough) {
                 ss.items.push_back({s, (int)b, {(int)fi, v}, {-1, 0}, false});
             }
         }
+    // operand relations (ties): the accumulators / factor registers equal to the memory word an address register points at, and equal to each
+    // other - comparisons that distinguish "greater" from "greater or equal" differ only here, and no independent value alphabet hits a tie
+    c.impl.api->fill_memory(c.impl.m, 0);
+    for (size_t b = 0; b < (thorough ? nb : 2); ++b) {
+        const VState& bs = c.bases[b].second;
+        for (int k = 0; k < 8; ++k) {
+            const u16 w = c.impl.api->peek_data(c.impl.m, bs.r[k]);
+            for (int form = 0; form < 3; ++form) {
+                VState s = bs;
+                const u64 v = form == 0 ? (u64)(long long)(short)w : form == 1 ? (u64)((long long)(short)w << 16) : (u64)w;
+                s.a[0] = s.a[1] = s.b[0] = s.b[1] = v; // 40-bit values are kept sign-extended to 64 bits
+                if (form == 2)
+                    s.x[0] = s.x[1] = s.y[0] = s.y[1] = w;
+                ss.items.push_back({s, (int)b, {-1, 0}, {-1, 0}, false});
+            }
+        }
+        for (u64 v : {(u64)0x0012345678ull, (u64)0xFFFFFFFFFFFFFFFBull, (u64)0}) {
+            VState s = bs;
+            s.a[0] = s.a[1] = s.b[0] = s.b[1] = v;
+            ss.items.push_back({s, (int)b, {-1, 0}, {-1, 0}, false});
+        }
+    }
     if (!thorough) {
         // quick tier: the two richest other bases with the visible (non-shadow) 1-bit/mode deviations
         for (size_t b : {(size_t)2, (size_t)3})
